@@ -10,6 +10,7 @@ pub mod c30_browse;
 pub mod c32_attributes;
 pub mod c33_swarm;
 pub mod c35_client;
+pub mod c36_acks;
 pub mod nm_family;
 pub mod sess_family;
 pub mod subs_family;
@@ -37,5 +38,6 @@ pub fn all() -> Vec<Box<dyn Scenario>> {
     v.push(Box::new(c32_attributes::C32));
     v.push(Box::new(c33_swarm::C33));
     v.push(Box::new(c35_client::C35));
+    v.push(Box::new(c36_acks::C36));
     v
 }
